@@ -1,9 +1,11 @@
 # C14 — connection slots are bounded by MaxConnections and always given back.
-from lib import vf
+import os, subprocess, time
+from lib import vf, srv
 
 ID = "C14"
 PROP_FILE = "Props/C14.v"
 CONSTS = ["default_max_connections"]
+EXTRA_BINS = ("dcat", "dtail")
 RULE = ("scripted connection histories against the real server in-process (listener loop, x/crypto handshake, channel and request "
         "handling): bad password, health login, key login without a channel, with a channel, with one / two shell requests, two "
         "channels, raw TCP connections that never speak, immediate resets, bursts of simultaneous attempts, interleaved with "
@@ -16,7 +18,7 @@ ASSUMPTIONS = ["a connection is 'being served' from accept until handleConnectio
                "the counter read by the accessor is the one printed in the STATS|currentConnections= log line"]
 
 KINDS = ["key_shell", "key_shell", "key_nochan", "key_chan", "key_2shell", "key_shell_twice", "health", "health_nochan", "badpw", "tcp_only", "tcp_reset",
-         "key_exec", "key_pty", "key_env", "key_subsystem"]
+         "key_exec", "key_pty", "key_env", "key_subsystem", "key_direct"]
 
 
 def gen_history(rng, mx):
@@ -46,17 +48,52 @@ def generate(rng, tier):
     for i in range(n):
         mx = rng.choice([1, 2, 3, 3, 5])
         cases.append({"max": mx, "events": gen_history(rng, mx)})
+    cases.append({"max": 2, "events": [["open", "a", "key_direct"], ["open", "b", "key_direct"], ["open", "c", "key_shell"], ["close", "a"], ["open", "d", "key_shell"]]})
+    # black box: the limit an administrator configures (config file -> config.Setup), below the other default limits
+    for mx in ([1] if tier == "quick" else [1, 2, 3]):
+        cases.append({"e2e_limit": mx})
     return cases
+
+
+def _e2e_limit(mx):
+    """A real server started from a configuration file with MaxConnections = mx; mx following dtail clients hold its slots;
+    a further dcat must be refused (no content); after one holder has gone a dcat is served."""
+    env = srv.Env(os.path.join(vf.scratch(), "c14lim%d" % mx))
+    s = env.start_server("lim", server_cfg={"MaxConnections": mx})
+    path = os.path.join(env.dir, "f.log")
+    open(path, "w").write("LIMIT-CONTENT\n")
+    common = ["--cfg", "none", "--servers", "127.0.0.1:%d" % s.port, "--trustAllHosts", "--key", env.key, "--user", "root", "--plain"]
+    holders = []
+    for _ in range(mx):
+        holders.append(subprocess.Popen([os.path.join(srv.BIN, "dtail")] + common + ["--files", path], stdin=subprocess.DEVNULL,
+                                        stdout=subprocess.DEVNULL, stderr=subprocess.DEVNULL, env=env.client_env(), cwd=env.dir))
+    time.sleep(2.0)
+    alive = sum(1 for h in holders if h.poll() is None)
+    rc1, out1, _ = env.client("dcat", ["--plain", "--files", path], servers=[s], timeout=30)
+    holders[0].kill(); holders[0].wait()
+    time.sleep(1.5)
+    rc2, out2, _ = env.client("dcat", ["--plain", "--files", path], servers=[s], timeout=30)
+    for h in holders[1:]:
+        h.kill(); h.wait()
+    env.stop_all()
+    return {"holders_alive": alive, "served_when_full": b"LIMIT-CONTENT" in (out1 or b""), "served_after_release": b"LIMIT-CONTENT" in (out2 or b"")}
 
 
 def run_impl(cases, tier):
     # one server process per shard; histories in a shard run one after the other (leaked slots of earlier
     # histories are subtracted as the baseline of the next one)
-    res, infos = vf.harness_parallel("connsrv", cases, shards=min(vf.NCPU, max(1, len(cases) // 3)), timeout=1500)
-    return res
+    hist = [i for i, c in enumerate(cases) if "e2e_limit" not in c]
+    res, infos = vf.harness_parallel("connsrv", [cases[i] for i in hist], shards=min(vf.NCPU, max(1, len(hist) // 3)), timeout=1500)
+    obs = [None] * len(cases)
+    for i, r in zip(hist, res):
+        obs[i] = r
+    for i, c in enumerate(cases):
+        if "e2e_limit" in c:
+            obs[i] = _e2e_limit(c["e2e_limit"])
+    return obs
 
 
-AUTH_OK = {"key_shell", "key_nochan", "key_chan", "key_2shell", "key_shell_twice", "health", "health_nochan", "tcp_only"}
+AUTH_OK = {"key_shell", "key_nochan", "key_chan", "key_2shell", "key_shell_twice", "health", "health_nochan", "tcp_only", "key_direct"}
 
 
 def judge(cases, obs, tier):
@@ -65,6 +102,14 @@ def judge(cases, obs, tier):
     for i, (c, o) in enumerate(zip(cases, obs)):
         if o is None or "panic" in o or "error" in o:
             errors.append("connsrv failed: %s" % (o,))
+            continue
+        if "e2e_limit" in c:
+            if o["holders_alive"] != c["e2e_limit"]:
+                errors.append("e2e limit %d: only %d holding clients stayed connected" % (c["e2e_limit"], o["holders_alive"]))
+            elif o["served_when_full"]:
+                oracle[i] = "a server configured with MaxConnections=%d served a further client while %d connections were open" % (c["e2e_limit"], c["e2e_limit"])
+            elif not o["served_after_release"]:
+                oracle[i] = "a server configured with MaxConnections=%d did not serve a client after a connection had ended" % c["e2e_limit"]
             continue
         mx = c["max"]
         before = 0          # ground truth before the event: connections the harness holds open
@@ -111,9 +156,13 @@ def classify(case, ob, detail):
 
 
 def nontrivial(c):
-    return any(e[0] == "burst" or (e[0] == "open" and e[2] in ("key_nochan", "key_chan", "tcp_only", "key_shell_twice", "key_2shell", "health_nochan")) for e in c["events"])
+    if "e2e_limit" in c:
+        return True
+    return any(e[0] == "burst" or (e[0] == "open" and e[2] in ("key_nochan", "key_chan", "tcp_only", "key_shell_twice", "key_2shell", "health_nochan", "key_direct")) for e in c["events"])
 
 
 def sample(c, o):
+    if "e2e_limit" in c:
+        return {"e2e_limit": c["e2e_limit"], "observed": o}
     return {"max": c["max"], "events": [" ".join(e) for e in c["events"]],
             "observed": [(t["count"], t["admitted"], t["open"]) for t in (o or {}).get("trace", [])], "final": (o or {}).get("final")}
